@@ -8,8 +8,16 @@
    formatters (pretty_print_value_at and below) are abstracted to [EvValue]: "writes, cannot fail".
    The tables and conditions marked (Gen) come from Gen/RenderFilter.v, regenerated from the source on every run. *)
 From Coq Require Import List NArith ZArith Bool Lia String Ascii.
-From NB Require Import Base.Res Base.Json Base.PyStr Diff.DiffFormat Diff.Patch Diff.Codec Sys.RenderTypes Gen.RenderFilter.
-Import ListNotations.
+From NB Require Import Base.Res.
+From NB Require Import Base.Json.
+From NB Require Import Base.PyStr.
+From NB Require Import Diff.DiffFormat.
+From NB Require Import Diff.Patch.
+From NB Require Import Diff.Codec.
+From NB Require Import Sys.RenderTypes.
+From NB Require Import Gen.RenderFilter..
+From NB Require Import Import.
+From NB Require Import ListNotations.
 
 (* ---------- configuration: PrettyPrintConfig + which() results ---------- *)
 Record cfg := {
